@@ -547,6 +547,76 @@ def check_idxpoint(case, rec=None):
     return fails
 
 
+# ----------------------------------------------------------------- grid_index_parallel.domap hands back reduced orientations
+
+def check_domap(case, rec=None):
+    """The mapping step of the grid indexing ("does what makemap.py does, in a function") on the simulated peaks of
+    one grain at the origin, started from any member of the grain's symmetry orbit, positions fitted or not: the
+    grain handed back is the simulated one in the setting of largest trace."""
+    import io, contextlib
+    from vf import oracles as O
+    from ImageD11 import parameters, unitcell, sym_u, grain as grainmod, columnfile, grid_index_parallel
+    name = case["group"]
+    cell = [float(x) for x in conforming_cell(name, case["p"])]
+    k = 3.5 / min(cell[:3])
+    cell = [cell[0] * k, cell[1] * k, cell[2] * k] + cell[3:]
+    ops = [np.asarray(o, float) for o in getattr(sym_u, name)().group]
+    par = dict(distance=150000.0, y_center=1024., z_center=1024., y_size=75., z_size=75., tilt_x=0., tilt_y=0.,
+               tilt_z=0., o11=1., o12=0., o21=0., o22=-1., wedge=0., chi=0., t_x=0., t_y=0., t_z=0., omegasign=1.0,
+               wavelength=0.3)
+    UB = gens.rotation_from_seed(case["seed"]) @ gens.busing_levy_B(cell)
+    uc = unitcell.unitcell(cell, "P")
+    uc.makerings(0.9)
+    hkls = np.array([h for ds in uc.ringds for h in uc.ringhkls[ds]]).T
+    sim = O.geo_simulate(UB @ hkls, par)
+    okm = sim["ok"]
+    sc, fc, om = sim["sc"][okm], sim["fc"][okm], sim["omega"][okm]
+    m = (sc > 0) & (sc < 2048) & (fc > 0) & (fc < 2048)
+    sc, fc, om = sc[m], fc[m], om[m]
+    n = len(om)
+    if n < 40:
+        if rec is not None:
+            rec.exclude("fewer than 40 simulated peaks on the detector")
+        return []
+    colf = columnfile.colfile_from_dict({"sc": sc.copy(), "fc": fc.copy(), "omega": om.copy(), "xc": sc.copy(),
+                                         "yc": fc.copy(), "sum_intensity": np.ones(n), "Number_of_pixels": np.ones(n),
+                                         "labels": np.zeros(n) - 1, "drlv2": np.ones(n)})
+    pp = dict(par)
+    pp.update({"cell__a": cell[0], "cell__b": cell[1], "cell__c": cell[2], "cell_alpha": cell[3], "cell_beta": cell[4],
+               "cell_gamma": cell[5], "cell_lattice_[P,A,B,C,I,F,R]": "P"})
+    pars = parameters.parameters(**pp)
+    for t in ("t_x", "t_y", "t_z"):
+        pars.stepsizes[t] = 1.0
+    truth = np.linalg.inv(UB)
+    op = ops[case["seed"] % len(ops)]
+    fitpos = bool((case["seed"] // 7) % 2)
+    gridpars = {"OMEGAFLOAT": 0.0, "NUL": True, "TOLSEQ": [0.05, 0.02], "SYMMETRY": name, "NPKS": 10, "FITPOS": fitpos}
+    start = grainmod.grain(op @ truth, [0., 0., 0.])
+    with contextlib.redirect_stdout(io.StringIO()):
+        ok, out = guard(grid_index_parallel.domap, pars, colf, [start], gridpars)
+    if not ok:
+        return [exc_failure("grid_index_parallel.domap", out)]
+    fails = []
+    if len(out) != 1:
+        fails.append(fail("idxpoint", "domap(%s, FITPOS=%s): %d grains back for one simulated grain (%d peaks)" %
+                          (name, fitpos, len(out), n), group=name))
+    else:
+        ubi = np.asarray(out[0].ubi, float)
+        scale = np.abs(ubi).max()
+        d = min(np.abs(o @ truth - ubi).max() for o in ops)
+        tmax = max(np.trace(o @ ubi) for o in ops)
+        if d > 1e-3 * scale:
+            fails.append(fail("idxpoint", "domap(%s, FITPOS=%s): the grain handed back is not the simulated one (%.3g)" %
+                              (name, fitpos, d / scale), group=name))
+        elif np.trace(ubi) < tmax - 1e-6 * scale:
+            fails.append(fail("idxpoint", "domap(%s, FITPOS=%s), started from orbit member %d: the grain handed back has "
+                              "trace %.6g, an equivalent setting has %.6g" % (name, fitpos, case["seed"] % len(ops),
+                                                                               np.trace(ubi), tmax), group=name))
+    if rec is not None:
+        rec.case(case, len(ops) >= 2, ["domap:" + name, "domap:fitpos" if fitpos else "domap:nofit"])
+    return fails
+
+
 REG_CELLS = [dict(a=3.0, b=4.0, c=5.0, al=80.0, be=100.0, ga=110.0, tric=[3., 4., 5., 80., 100., 110.])]
 
 
@@ -572,6 +642,7 @@ def run_shard(rec):
     hyp_run(rec, "reduce_ubi", ubicases(), lambda c: check_ubi(c, rec), max_examples=300 if quick else 2500)
     hyp_run(rec, "reduce_hkl", hklcases(), lambda c: check_hkl(c, rec), max_examples=150 if quick else 1500)
     hyp_run(rec, "makeuniq", makeuniqcases(), lambda c: check_makeuniq(c, rec), max_examples=60 if quick else 500)
+    hyp_run(rec, "domap", idxcases(), lambda c: check_domap(c, rec), max_examples=6 if quick else 60, shrink=False)
     hyp_run(rec, "idxpoint", idxcases(), lambda c: check_idxpoint(c, rec), max_examples=10 if quick else 60,
             shrink=not quick)
     hyp_run(rec, "uniq_grains", uniqcases(), lambda c: check_uniq(c, rec), max_examples=40 if quick else 400)
@@ -588,6 +659,8 @@ def replay(sub, case, rec):
         return check_makeuniq(case, rec)
     if sub == "idxpoint":
         return check_idxpoint(case, rec)
+    if sub == "domap":
+        return check_domap(case, rec)
     if sub == "uniq_grains":
         return check_uniq(case, rec)
     return check_ubi(case, rec)
